@@ -30,7 +30,7 @@ VARIABLES i,        \* index of the next event
                     \* of the process so far are (FirstId..floor-1) \cup used
 tvars == <<vars, i, floor>>
 
-Trace    == TLCEval(ndJsonDeserialize("trace.ndjson"))      \* TLCEval: read the file once
+Trace    == TLCEval(ndJsonDeserialize("trace.ndjson"))
 TracePid == Trace[1].pid
 \* N is a plain number in the cfg (an upper bound of the goroutines of a run): defining it
 \* from the trace (N <- ...) makes TLC re-read the file at every step.
